@@ -98,8 +98,11 @@ def check(run, F, tier):
         if n in ms:
             entries[n] = ms[n]
     allp = {}
+    allint = {}
     for n, f in entries.items():
-        allp[n] = [p for p in conn.paths(F, f["path"])["paths"] if p.kind == "return"]
+        res_n = conn.paths(F, f["path"])
+        allp[n] = [p for p in res_n["paths"] if p.kind == "return"]
+        allint[n] = res_n["interned"]
     flat = [p for ps in allp.values() for p in ps]
     flags = discover_flags(F, flat)
     run.cov_extra["flags"] = flags
@@ -209,19 +212,16 @@ def check(run, F, tier):
             continue
         if u == {"Some"}:
             src = ut + ()
-            want = ("init", ("self",), ut[2] + (("dc", "Some"), ("f", 0, "0")))
+            want = ("field", ut, 0)
         elif u == {"None"} and s == {"Some"}:
-            want = ("init", ("self",), st_[2] + (("dc", "Some"), ("f", 0, "0")))
+            want = ("field", st_, 0)
         elif u == {"None"} and s == {"None"}:
             want = kt
         else:
             r4.violation(key, "send_post_process path does not decide the override / Server Keep Alive options", conn.path_summary(p))
             continue
         # guard: duration > 0 decided on the path
-        gz = None
-        for k2, c in p.cons.items():
-            if k2[0] == "cmp" and k2[1] == "Lt" and k2[2] == ("c", 0, "u64") and k2[3] == ("sym", want):
-                gz = (c == ("eq", 1))
+        gz = conn.decide(p, allint["send_post_process"], ("c", 0, "u64"), "lt", ("sym", want))
         if gz is None:
             r4.violation(key, "no `> 0` test on the selected interval %s" % conn.short(want), conn.path_summary(p))
             continue
